@@ -42,18 +42,19 @@ deriving DecidableEq, Repr
 /-- trimming done before decoding: skip the scheme token, then white space, then cut at LF -/
 def payload (hdr : Bytes) : Bytes := strtokLF ((hdr.dropWhile isGraph).dropWhile isSpace)
 
-def clearMem (hdr : Bytes) : ClearMem :=
+def clearMem (lim : Nat) (hdr : Bytes) : ClearMem :=
   let eek := payload hdr
-  let r := decodeUpdate decodeInit eek
+  let r := decodeUpdate lim decodeInit eek
   { size := decodeLength eek.length + Gen.Base64.cleartextExtra
     written := r.2.1.length
     nulAt := if r.2.2 = .ok ∧ decodeFinal r.1 then some r.2.1.length else none }
 
 /-- `decodeCleartext`: the returned C string, `none` = nullptr.  (`hdr` is a C string: NUL free) -/
-def decodeCleartext (hdr : Bytes) : Option Bytes :=
+def decodeCleartext (lim : Nat) (hdr : Bytes) : Option Bytes :=
   let eek := payload hdr
-  let r := decodeUpdate decodeInit eek
+  let r := decodeUpdate lim decodeInit eek
   if r.2.2 = .ok ∧ decodeFinal r.1 then
+    if r.2.1.contains 0 then none else   -- memchr(cleartext, '\0', dstLen): embedded NUL refused
     let clear := cstr r.2.1            -- cleartext[dstLen] = '\0'; everything below uses C string functions
     -- utf8 is off: no transcoding
     if clear.any (fun c => c == 13 || c == 10) then none   -- strcspn(cleartext, "\r\n") != strlen(cleartext)
@@ -75,8 +76,8 @@ structure Creds where
 deriving DecidableEq, Repr
 
 /-- the credential split of `Auth::Basic::Config::decode`; `none` = no user attached to the request -/
-def decode (caseSensitive : Bool) (hdr : Bytes) : Option Creds :=
-  match decodeCleartext hdr with
+def decode (lim : Nat) (caseSensitive : Bool) (hdr : Bytes) : Option Creds :=
+  match decodeCleartext lim hdr with
   | none => none
   | some clear =>
     -- separator = strchr(cleartext, ':')
